@@ -207,3 +207,29 @@ def c19_r3(ctx):
                    detail="score = %s uses only %s: every suggestion gets the same distance component, so a frequent "
                           "word at distance 2 outranks rarer words at distance 1" % (norm.canon(e), sorted(names)) if not uses_dist else "",
                    loc=ctx.nodeloc(f, y))
+
+
+@rule("C19", "R4", "K11", "suggestions are drawn from the field's spelling lexicon on every reader kind",
+      min_instances=1,
+      clause="ReaderCorrector hands reader.terms_within() the name produced by the field's spelling_fieldname() (the un-stemmed "
+             "spelling field when the field keeps one): only SegmentReader.terms_within maps the name itself, the base-class "
+             "(multi-segment) implementation expands whatever field it is given.")
+def c19_r4(ctx):
+    prog = ctx.prog
+    f = prog.method("spelling.ReaderCorrector", "_suggestions", inherited=False)
+    ctx.saw(f)
+    tw = [c for c in norm.calls_in(f.node) if norm.call_name(c) == "terms_within"]
+    ok = bool(tw)
+    detail = []
+    for c in tw:
+        m_ = c.args[0] if c.args else next((k.value for k in c.keywords if k.arg == "fieldname"), None)
+        t = norm.deep_canon(m_, f.node) if m_ is not None else "?"
+        detail.append(t)
+        ok = ok and ".spelling_fieldname(" in t
+    ctx.ob(f, ok, "terms_within() is asked about <field>.spelling_fieldname(fieldname)", detail="asked about %s" % detail)
+    # the two implementations really differ in who translates (if they stop differing the clause above is moot but harmless)
+    base = prog.method("reading.IndexReader", "terms_within", inherited=False)
+    seg = prog.method("reading.SegmentReader", "terms_within", inherited=False)
+    ctx.ob(base, True, "IndexReader.terms_within expands the given field as is: %s" % (
+        "no spelling_fieldname" if "spelling_fieldname" not in norm.canon(base.node) else "translates"))
+    ctx.saw(seg)
